@@ -42,6 +42,19 @@ LongValues ==
   { << <<LongName(LongLens[k], 97), Body(1, 5)>> >> : k \in 1..6 }
   \cup { << <<LongName(a, 97), Body(1, 0)>>, <<LongName(b, 99), Body(2, 5)>> >> : a \in {65, 129}, b \in {64, 65, 129} }
 
+\* ---- wider name domain: single-byte-only and double-byte names of 255/256/257 bytes (around a one-byte length
+\* class), 300 and 1000 bytes; names of half-width katakana whose Shift-JIS bytes are also well-formed UTF-8
+\* (lead 0xC2..0xDF, trail 0xA1..0xBF)
+SingleName(L, tag) == <<tag>> \o [p \in 1..(L - 1) |-> 97 + (p % 26)]
+WideLens == {255, 256, 257, 300, 1000}
+U8Names == << <<195, 169>>, <<206, 177, 46, 98>>, <<97, 223, 191>> >>
+WideValues ==
+  { << <<LongName(L, 97), Body(1, 33)>> >> : L \in WideLens }
+  \cup { << <<SingleName(L, 100), Body(1, 33)>> >> : L \in WideLens }
+  \cup { << <<SingleName(256, 100), Body(1, 1)>>, <<LongName(257, 99), Body(2, 33)>> >> }
+  \cup { << <<U8Names[k], Body(1, 5)>> >> : k \in 1..3 }
+  \cup { << <<U8Names[1], Body(1, 5)>>, <<U8Names[2], Body(2, 1)>> >> }
+
 \* ---- placements
 It(k) == Item(k, 0, <<>>)
 Gap(b) == Item("gap", 0, b)
@@ -121,7 +134,7 @@ RndSteps == 2000
 
 VARIABLE c
 Init == c = [k |-> "root"]
-PickValue == c.k = "root" /\ c' \in { [k |-> "val", v |-> v] : v \in UNION { Values(n, Lens) : n \in 0..MaxN } \cup LongValues }
+PickValue == c.k = "root" /\ c' \in { [k |-> "val", v |-> v] : v \in UNION { Values(n, Lens) : n \in 0..MaxN } \cup LongValues \cup WideValues }
 PickLayout == c.k = "val" /\ c' \in { [k |-> "lay", v |-> c.v, lay |-> l, err |-> NoErr] : l \in ConformingLays(c.v) }
 PickError == /\ c.k = "val" /\ \A i \in 1..Len(c.v) : Len(BodyOf(c.v[i])) \in ErrLens
              /\ c' \in { [k |-> "lay", v |-> c.v, lay |-> l, err |-> e] : l \in ErrLays(Len(c.v)), e \in Errs(Len(c.v)) }
